@@ -1,4 +1,74 @@
-import DcVerif.Model.Ring
+import DcVerif.Lemmas.Ring
+/-!
+# C13 — a later barrier stage sees an event only after the previous stage finished it (single-producer pipelines)
+
+For every ring size, topology, batch list, wait strategy and **every schedule** (`Reachable`):
+
+* `c13_stage_order` — when a handler of stage `k+1` is about to be invoked for sequence `i`, every handler of stage `k` has
+  already *published* a cursor ≥ `i`; a cursor is published only after the whole batch was handled, so `i` is in that
+  handler's log (it has returned from handling `i`).
+* `c13_chain` — handler cursors are ordered along the stages: stage `k+1` never runs ahead of stage `k`, stage 0 never
+  ahead of the producer cursor.
+* `c13_producer_gated_by_last_stage` / `c13_no_stage_lapped` — the producer only reads the last stage's cursors, yet while
+  it writes sequence `w` *every* handler of *every* stage that is handling `i` satisfies `i < w < i + n`.
+
+That stage `k+1` also *observes the modifications* made by stage `k` is the happens-before statement R2 of C05
+(`DcVerif/Props/C05.lean`); the payload values themselves are checked on the implementation's events by the driver.
+-/
 namespace C13
-theorem placeholder : True := trivial
+open Ring
+
+theorem c13_stage_order {x : PSt} (hr : Reachable x) (k j : Nat) (hk : k + 1 < x.s.K) (hj : j < x.s.h (k + 1))
+    (hpc : (x.s.cons (k + 1) j).pc = .handle) (hi : (x.s.cons (k + 1) j).i ≤ (x.s.cons (k + 1) j).avail)
+    (j' : Nat) (hj' : j' < x.s.h k) :
+    (x.s.cons (k + 1) j).i ≤ (x.s.cons k j').cur ∧ (x.s.cons (k + 1) j).i ∈ (x.s.cons k j').log := by
+  obtain ⟨hI, hK, hP, hb⟩ := reachable_inv hr
+  have hc := hI.2 (k + 1) j hk hj
+  have hav := hc.availLe (by simp [hpc]) j' (by simpa [ndeps] using hj')
+  simp only [dep, Nat.add_one_ne_zero, if_false, Nat.add_sub_cancel] at hav
+  have hge := hc.iGe hpc
+  have hne := hc.nextEq (by simp [hpc])
+  have hle : (x.s.cons (k + 1) j).i ≤ (x.s.cons k j').cur := by omega
+  refine ⟨hle, ?_⟩
+  -- the earlier-stage handler's log contains 1 … (its progress) ⊇ 1 … cur
+  have hc' := hI.2 k j' (by omega) hj'
+  have hpos : 1 ≤ (x.s.cons (k + 1) j).i := by omega
+  by_cases h1 : (x.s.cons k j').pc = .handle
+  · rw [hc'.logH h1]
+    have := (hc'.curAvail (by simp [h1])).1
+    have := hc'.nextEq (by simp [h1])
+    have := hc'.iGe h1
+    simp only [List.mem_range'_1]; omega
+  · by_cases h2 : (x.s.cons k j').pc = .publish
+    · rw [hc'.logP h2]
+      have := hc'.curAvail (by simp [h2])
+      simp only [List.mem_range'_1]; omega
+    · rw [hc'.logO h1 h2]
+      simp only [List.mem_range'_1]; omega
+
+theorem c13_chain {x : PSt} (hr : Reachable x) (k j j' : Nat) (hk : k + 1 < x.s.K) (hj : j < x.s.h (k + 1))
+    (hj' : j' < x.s.h k) : (x.s.cons (k + 1) j).cur ≤ (x.s.cons k j').cur ∧ (x.s.cons k j').cur ≤ x.s.cursor := by
+  obtain ⟨hI, hK, hP, hb⟩ := reachable_inv hr
+  have := (hI.2 (k + 1) j hk hj).curDep j' (by simpa [ndeps] using hj')
+  simp only [dep, Nat.add_one_ne_zero, if_false, Nat.add_sub_cancel] at this
+  exact ⟨this, chain_up x.s hI k j' (by omega) hj'⟩
+
+/-- the producer's gate reads the cursors of the last stage only (`ngate`/`gate` of the model are the builder's wiring) … -/
+theorem c13_producer_gated_by_last_stage (s : St) (d : Nat) :
+    gate s d = (s.cons (s.K - 1) d).cur ∧ ngate s = s.h (s.K - 1) := ⟨rfl, rfl⟩
+
+/-- … and that suffices: no stage is ever lapped -/
+theorem c13_no_stage_lapped {x : PSt} (hr : Reachable x) (hw : x.p.pc = .write) (hww : x.p.w ≤ x.p.stop)
+    (k j : Nat) (hk : k < x.s.K) (hj : j < x.s.h k)
+    (hc : (x.s.cons k j).pc = .handle) (hi : (x.s.cons k j).i ≤ (x.s.cons k j).avail) :
+    (x.s.cons k j).i < x.p.w ∧ x.p.w < (x.s.cons k j).i + x.s.n :=
+  no_lap x (reachable_inv hr) hw hww k j hk hj hc hi
+
+/-! non-vacuity: a two-stage pipeline in which the second stage is inside a batch -/
+def demo : PSt := runX (mk 4 2 (fun _ => 1) false [2, 1])
+  ((List.replicate 11 Tid.prod) ++ (List.replicate 8 (Tid.cons 0 0)) ++ (List.replicate 4 (Tid.cons 1 0)))
+
+example : (demo.s.cons 1 0).pc = .handle ∧ (demo.s.cons 1 0).i = 1 ∧ (demo.s.cons 1 0).avail = 2 ∧
+    (demo.s.cons 0 0).cur = 2 ∧ (demo.s.cons 0 0).log = [1, 2] := by decide +kernel
+
 end C13
